@@ -173,7 +173,7 @@ def c17_2(ctx: Ctx):
               "arg_stack_size = one slot per stack argument", f"arg_stack_size = {src(ass) if ass else '?'}")
     names = ["total_stack_size", "stack_padding", "cleanup_size", "arg_stack_size"]
     n = 0
-    for slot, nstack, shadow, align, adj, cc in itertools.product((4, 8), (0, 1, 3), (0, 8, 32), (4, 16), (None, 0, 8, 136), (True, False)):
+    for slot, nstack, shadow, align, adj, cc in itertools.product((4, 8), (0, 1, 3), (0, 4, 8, 32, 40), (4, 16), (None, 0, 4, 8, 12, 136), (True, False)):  # residues that are not their own negative mod the alignment (4, 12, 40) tell + from -
         env = {
             "stack_slot_size": slot,
             "arg_stack_size": slot * nstack,
